@@ -70,26 +70,26 @@ type OResp struct {
 
 // UpCall is one call of the upstream RoundTripper.
 type UpCall struct {
-	ID          int
-	Gor         string
-	Owner       string
-	OwnerOp     int
-	Fg          bool // on the client's own goroutine
-	VerAt       int  // the resource's version and modification time when the request reached the origin
-	LMAt        time.Duration
-	SeqStart    uint64
-	SeqEnd      uint64
-	TStart      time.Duration
-	TEnd        time.Duration
-	Req         ReqSnap
-	Res         int
-	Resp        *OResp
-	ErrKind     string // "" | "err" | "hang-cancel" | "ctx" | "reset-header" | "abort"
+	ID           int
+	Gor          string
+	Owner        string
+	OwnerOp      int
+	Fg           bool // on the client's own goroutine
+	VerAt        int  // the resource's version and modification time when the request reached the origin
+	LMAt         time.Duration
+	SeqStart     uint64
+	SeqEnd       uint64
+	TStart       time.Duration
+	TEnd         time.Duration
+	Req          ReqSnap
+	Res          int
+	Resp         *OResp
+	ErrKind      string        // "" | "err" | "hang-cancel" | "ctx" | "reset-header" | "abort"
 	BodyCancelAt time.Duration // >0: virtual time+1ns at which a read of the response body found the request context ended
-	CancelAt    time.Duration
-	HadDeadline bool
-	Deadline    time.Duration
-	Ended       bool
+	CancelAt     time.Duration
+	HadDeadline  bool
+	Deadline     time.Duration
+	Ended        bool
 }
 
 type StoreOp struct {
@@ -185,7 +185,7 @@ type Run struct {
 	// store-level runs: phase currently executing, and whether an injected disk fault fired in the second one
 	curPhase      int
 	reqReuse      map[string]*reuseSlot
-	stallSID map[int]bool // responses whose body stalls for ever: their reader only closes them
+	stallSID      map[int]bool      // responses whose body stalls for ever: their reader only closes them
 	exchIdx       map[exchKey]*Exch // (client name, operation index) -> its latest exchange
 	judging       bool
 	lineageEnd    map[*UpCall]uint64 // memo of lastSeqOfLineage (history is immutable once judging starts)
@@ -895,8 +895,19 @@ var spellings = []string{"canon", "uphost", "defport", "pctlower", "pctunres", "
 
 // BuildURL renders resource res in the given spelling; every spelling is
 // equivalent to the canonical one under RFC 3986 §6.2.2-6.2.3 by construction.
+// rawBytes: "{FF}" in a scenario's query stands for the raw byte 0xFF (scenario files are JSON, which cannot
+// carry bytes that are not UTF-8).
+var rawByteRe = regexp.MustCompile(`\{([0-9A-F]{2})\}`)
+
+func rawBytes(s string) string {
+	return rawByteRe.ReplaceAllStringFunc(s, func(m string) string {
+		b, _ := strconv.ParseUint(m[1:3], 16, 8)
+		return string([]byte{byte(b)})
+	})
+}
+
 func BuildURL(res *Resource, sp int) string {
-	scheme, host, p, q := "http", res.Host, res.Path, res.Query
+	scheme, host, p, q := "http", res.Host, res.Path, rawBytes(res.Query)
 	switch spellings[sp%len(spellings)] {
 	case "uphost":
 		host = strings.ToUpper(host)
